@@ -31,6 +31,9 @@ GLOBAL_BENIGN = [
     {"id": "global-unparse", "kind": "benign", "transform": "unparse", "why": "every module re-printed by ast.unparse (comments, layout, quotes, redundant parentheses gone)"},
     {"id": "global-rename-locals", "kind": "benign", "transform": "rename", "why": "every local variable of every function renamed (648 names), nonlocals kept consistent"},
     {"id": "global-instrument", "kind": "benign", "transform": "instrument", "why": "a logging.debug call inserted at the top of every function"},
+    {"id": "global-mirror-compare", "kind": "benign", "transform": "mirror", "why": "every comparison of side-effect-free operands mirrored (a < b -> b > a, a == b -> b == a)"},
+    {"id": "global-augassign-expand", "kind": "benign", "transform": "augexpand", "why": "every x += y / x -= y rewritten as x = x + y / x = x - y"},
+    {"id": "global-negate-if", "kind": "benign", "transform": "negateif", "why": "every if/else rewritten as `if not c: <else-branch> else: <then-branch>`"},
 ]
 
 
